@@ -18,6 +18,14 @@ def show_vec(l):
     return "n=%d h=%x head=%s" % (len(l), hash_list(l), lst(l[:3]))
 
 
+def rng_sample_exact(rng, n, m):
+    """exactly min(m, n) distinct indices below n"""
+    pool = list(range(n)); out = []
+    for _ in range(min(m, n)):
+        out.append(pool.pop(rng.below(len(pool))))
+    return out
+
+
 def vec(rng, n, kind=0):
     if kind == 1:
         return [0] * n
@@ -170,7 +178,8 @@ def poly_cases(rng, tier):
 def misc_cases(rng, tier):
     out = []
     for i in range(40 if tier == "quick" else 400):
-        v = [rng.choice([0, 0, 1, R - 1, rng.fe()]) for _ in range(rng.below(12))]
+        ln = rng.below(12) if i % 4 else rng.choice([15, 16, 17, 31, 32, 33, 40, 64, 100])   # also lengths around chunk sizes
+        v = [rng.choice([0, 0, 1, R - 1, rng.fe()]) if ln < 15 else rng.choice([rng.fe(), rng.fe(), rng.fe(), 0]) for _ in range(ln)]
         out.append({"line": "binv %s" % lst(v), "tags": ["batch-inversion"],
                     "expect": lst([inv(x) if x else 0 for x in v])})
     for k in range(0, 8 if tier == "quick" else 11):
@@ -202,9 +211,13 @@ def misc_cases(rng, tier):
                 c["expect"] = hx(sum(e * l for e, l in zip(ev, lag(pt))) % R)       # definition: sum_i ev_i * L_i(pt)
             out.append(c)
             m = rng.below(min(n, 5) + 1)
+            if n >= 64 and pt != 7:
+                m = rng.choice([15, 16, 17, 31, 32, 33, 40, 47, 48, 63])      # many public inputs (chunked batch inversions)
             idx = sorted(set(rng.below(n) for _ in range(m)))
+            if m >= 15:
+                idx = sorted(rng_sample_exact(rng, n, m))
             roots = [pow(inv(w), i, R) for i in idx]
-            vals = [rng.choice([0, rng.fe()]) for _ in idx]
+            vals = [rng.choice([0, rng.fe()]) if m < 15 else rng.choice([rng.fe(), rng.fe(), rng.fe(), 0]) for _ in idx]
             c = {"line": "lpi %d %s %s %s" % (n, lst(roots), lst(vals), hx(pt)), "tags": ["lagrange-and-pi"] + tags[1:]}
             if pow(pt, n, R) != 1:
                 lp = lag(pt)
